@@ -133,6 +133,11 @@ fn shrink_candidates(s: &Scenario, structural: bool) -> Vec<Scenario> {
         c.slow_drop = 0;
         out.push(c);
     }
+    if s.post_write {
+        let mut c = s.clone();
+        c.post_write = false;
+        out.push(c);
+    }
     if s.weak_cas_rate > 0 {
         let mut c = s.clone();
         c.weak_cas_rate = 0;
